@@ -933,6 +933,11 @@ class _SMEval:
                     return ("verset", W_ALL if a[0] == "pv" else a[1])
                 if a[0] == "iter" and a[3] == "version" and a[1] == A_VER:
                     return ("verset", a[2])
+            if f.id == "dict":
+                if a[0] in ("pv", "pvf"):
+                    return a
+                if a[0] == "iter" and a[3] == "version" and a[1][0] == "tuple" and len(a[1][1]) == 2 and a[1][1][0] == A_VER:
+                    return ("pv", a[1][1][1]) if a[2] == W_ALL else ("pvf", a[2], a[1][1][1])
             if f.id == "len":
                 if a[0] == "coll":
                     if a[1] and a[2] == A_SHNUM:
@@ -970,6 +975,8 @@ class _SMEval:
                 return ("verset", W)
             if x == ("verfield", 0):
                 return ("seqs", W)
+            if x[0] == "tuple" and len(x[1]) == 2 and x[1][0] == A_VER and not isinstance(e, ast.SetComp):
+                return ("iter", x, W, "version")        # (version, value) pairs of the versions of W: dict(..) of it is per-version
             self.und(fn, e, "a collection of %s per version" % src(fn, e.elt))
         if level == "inner":
             if g.ifs or isinstance(e, ast.DictComp):
@@ -1782,8 +1789,23 @@ def run(ctx: Context):
             v = bn.resolve(n, n.ast.value)
             ok = False
             coll = None
-            if isinstance(v, ast.Call) and call_name(v) == "max" and len(v.args) == 1 and not v.keywords:
+            if isinstance(v, ast.Call) and call_name(v) == "max" and len(v.args) == 1 and not isinstance(v.args[0], ast.Starred) \
+                    and all(k.arg == "default" for k in v.keywords) and len(v.keywords) <= 1:
+                # max(X) / max(X, default=None): the greatest element of X is the last of sorted(X); default=None is the
+                # `return None` of the empty case
                 ok, coll = True, v.args[0]
+                for k in v.keywords:
+                    dv = bn.resolve(n, k.value)
+                    try:
+                        dval = ast.literal_eval(dv)
+                    except (ValueError, TypeError, SyntaxError):
+                        raise AnalysisError("best_recoverable_version: the default %s of max() (the answer when nothing is "
+                                            "recoverable) is not a constant" % src(bf, k.value))
+                    r.require(not dval, bf, bf.loc(n.ast), "best_recoverable_version answers %r instead of None when there is no "
+                              "recoverable version: the repairer and the checker would take it for a version" % (dval,))
+                    if not dval and dval is not None:
+                        raise AnalysisError("best_recoverable_version answers %r (falsy, but not None) when nothing is recoverable: "
+                                            "whether every caller treats it like None is not followed" % (dval,))
             elif isinstance(v, ast.Subscript) and isinstance(v.slice, ast.UnaryOp) and isinstance(v.slice.op, ast.USub) \
                     and isinstance(v.slice.operand, ast.Constant) and v.slice.operand.value == 1:
                 coll = v.value
